@@ -157,7 +157,7 @@ func runThorough(p *Property, rep *Report) (map[string]interface{}, int, []strin
 		out  string
 	}
 	results := make([]res, len(jobs))
-	sem := make(chan struct{}, 6)
+	sem := make(chan struct{}, 10)
 	var wg sync.WaitGroup
 	for i, j := range jobs {
 		wg.Add(1)
